@@ -450,6 +450,7 @@ def replay_case(mod, tier, payload):
     Returns None if it passes, else the Violation."""
     subname = payload["subcheck"]
     subs = {s.name: s for s in mod.subchecks("thorough")}
+    subs.update({s.name: s for s in mod.subchecks("quick")})
     subs.update({s.name: s for s in mod.subchecks(tier)})
     if hasattr(mod, "replay"):
         try:
